@@ -420,8 +420,14 @@ TEXT_TOKENS = ["alpha", "b", "c1", " ", " ", "  ", "\t", "\n", "\n   ", NBSP, NB
 ATTR_TOKENS = ["v", "w1", " ", "  ", "\t", "\n", NBSP, "&#9;", "&#10;", "&#13;", "&quot;", "&amp;", "&lt;", "é"]
 
 
+CDATA_TOKENS = ["<![CDATA[C & N]]>", "<![CDATA[ <x> ]]>", "<![CDATA[a]]><![CDATA[b]]>", "<![CDATA[  ]]>", "<![CDATA[w]]>",
+                "<![CDATA[ lead]]>", "<![CDATA[trail ]]>", "<![CDATA[]]>", "<![CDATA[x\n y]]> <![CDATA[z]]>"]
+
+
 def gen_text(rng, charref_nbsp):
     toks = TEXT_TOKENS + (["&#160;", "&#xA0;"] if charref_nbsp else [])
+    if rng.random() < 0.25:          # CDATA sections next to ordinary text: before / after / between, whitespace outside the boundary
+        toks = toks + CDATA_TOKENS * 2
     n = rng.choice([0, 1, 1, 2, 3, 5, 8])
     s_ = "".join(rng.choice(toks) for _ in range(n))
     if s_ and rng.random() < 0.08 and "]]>" not in s_ and "&" not in s_:
@@ -458,6 +464,10 @@ FIXED_DOCS = [
     '<a v="x&#10;y&#9;z"><![CDATA[  <raw>  ]]></a>',
     '<a>x<b/>  <b/>y</a>',
     '<a><para/><para>   </para><b>   </b></a>',
+    '<title>Soil <![CDATA[C & N]]> stocks</title>',
+    '<a><b><![CDATA[x]]> y</b><b>x <![CDATA[y]]></b><b>x<![CDATA[ ]]>y</b><b><![CDATA[p]]><![CDATA[q]]> r <![CDATA[<s>]]></b></a>',
+    '<a><para>keep <![CDATA[ <raw>  & ]]> this </para><literalLayout><![CDATA[ l1 ]]>\n<![CDATA[ l2 ]]></literalLayout><objectName> f<![CDATA[ 1 ]]>.csv</objectName></a>',
+    '<a> <![CDATA[  ]]> <b> <![CDATA[only]]> </b></a>',
     '<a/>', '<a></a>', '<a> </a>', '<a x=""/>', '<a x=" "> \n </a>', '<para/>', '<para> </para>', '<a x="" xmlns:xsi="' + XSI + '" xsi:nil=""><b/></a>',
     '<a>&#160;z&#160;</a>',                                   # regression: NBSP as character reference (fixed in 595f276)
     '<a x="&#160;p&#xA0;&#160;q "><para>&#160;y&#xA0;</para> t&#160; </a>',
